@@ -615,13 +615,13 @@ theorem enc_false_some (d : Desc) : ∀ (fuel ty : Nat) (v : Val) (r : Option By
 
 theorem byteOf_toNat (n : Nat) : (byteOf n).toNat = n % 256 := by simp [byteOf]
 
-theorem readU32_u32le (n : Nat) (h : n < 2 ^ 32) (rest : Bytes) : readU32 (u32le n ++ rest) = .ok (n, rest) := by
+private theorem readU32_u32le (n : Nat) (h : n < 2 ^ 32) (rest : Bytes) : readU32 (u32le n ++ rest) = .ok (n, rest) := by
   simp only [u32le, List.cons_append, List.nil_append, readU32, byteOf_toNat]
   have : n % 256 + (((n >>> 8) % 256) <<< 8) + (((n >>> 16) % 256) <<< 16) + (((n >>> 24) % 256) <<< 24) = n := by
     simp only [Nat.shiftRight_eq_div_pow, Nat.shiftLeft_eq, Nat.reducePow] at *; omega
   rw [this]
 
-theorem readU64_u64le (n : Nat) (h : n < 2 ^ 64) (rest : Bytes) : readU64 (u64le n ++ rest) = .ok (n, rest) := by
+private theorem readU64_u64le (n : Nat) (h : n < 2 ^ 64) (rest : Bytes) : readU64 (u64le n ++ rest) = .ok (n, rest) := by
   have hlo : readU32 (u32le n ++ (u32le (n >>> 32) ++ rest)) = .ok (n % 2 ^ 32, u32le (n >>> 32) ++ rest) := by
     simp only [u32le, List.cons_append, List.nil_append, readU32, byteOf_toNat]
     have : n % 256 + (((n >>> 8) % 256) <<< 8) + (((n >>> 16) % 256) <<< 16) + (((n >>> 24) % 256) <<< 24) = n % 2 ^ 32 := by
